@@ -148,6 +148,10 @@ impl Io {
     pub fn peer(&self) -> Io {
         Io { data: self.data.clone(), pos: 0, ctl: None, cap: self.cap }
     }
+    /// A second handle on the same bytes that shares the controller.
+    pub fn peer_ctl(&self) -> Io {
+        Io { data: self.data.clone(), pos: 0, ctl: self.ctl.clone(), cap: self.cap }
+    }
 }
 
 /// Decides how many bytes a chopped transfer moves: Err(Interrupted) or 1..=want.
